@@ -569,6 +569,7 @@ type fakeReg struct {
 	hdrMT     string
 	putBody   []byte
 	putPath   string
+	store     bool // a push replaces the body that is served
 }
 
 func (f *fakeReg) RoundTrip(req *http.Request) (*http.Response, error) {
@@ -604,6 +605,9 @@ func (f *fakeReg) RoundTrip(req *http.Request) (*http.Response, error) {
 	case strings.Contains(p, "/manifests/") && req.Method == http.MethodPut:
 		b, _ := io.ReadAll(req.Body)
 		f.putBody, f.putPath = b, p
+		if f.store {
+			f.body = b
+		}
 		h := http.Header{}
 		h.Set("Location", p)
 		return mk(201, h, nil), nil
@@ -628,6 +632,12 @@ func runFetch(enc *json.Encoder, sc fetchScn, scratch string, n int) {
 	}
 	if sc.Via == "regdata" && (sc.Desc == "absent" || sc.Ref != "absent") {
 		return // inline data needs a descriptor
+	}
+	if sc.Via == "orig" && (sc.Variant != "canon" || sc.Kind == "d1_signed" || sc.Hdr != "absent" || sc.HdrMT != "absent") {
+		return // built from a struct: the bytes are the struct's serialisation, there is no response header
+	}
+	if sc.Via == "regputget" && (sc.Desc != "absent" || sc.Hdr != "absent" || sc.HdrMT != "absent" || sc.Kind == "d1_signed") {
+		return // pushed to and pulled from the reference
 	}
 	body := bodyVariant(sc.Kind, sc.Variant)
 	canon := canonical(sc.Kind, body)
@@ -701,6 +711,66 @@ func runFetch(enc *json.Encoder, sc fetchScn, scratch string, n int) {
 			opts = append(opts, manifest.WithHeader(h))
 		}
 		m, err = manifest.New(opts...)
+	case "orig":
+		// the same request spelled with the struct instead of the bytes
+		opts := []manifest.Opts{manifest.WithOrig(fixtureOrig(sc.Kind, false))}
+		rs := "registry.example/repo:tag"
+		if refDig != "" {
+			rs = "registry.example/repo@" + refDig
+		}
+		r, rerr := ref.New(rs)
+		if rerr != nil {
+			fail(rerr)
+		}
+		var descOpt manifest.Opts
+		switch sc.Form {
+		case "mt_desc", "mt_desc_first":
+			descOpt = manifest.WithDesc(descriptor.Descriptor{MediaType: kindMT(sc.Kind), Size: int64(len(body)), Digest: digest.Digest(descDig)})
+		case "size_desc":
+			descOpt = manifest.WithDesc(descriptor.Descriptor{Size: int64(len(body)) + 7, Digest: digest.Digest(descDig)})
+		default:
+			if descDig != "" {
+				descOpt = manifest.WithDesc(descriptor.Descriptor{Digest: digest.Digest(descDig)})
+			}
+		}
+		refOpt := manifest.WithRef(r)
+		switch sc.Form {
+		case "ref_first", "mt_desc":
+			opts = append(opts, refOpt)
+			if descOpt != nil {
+				opts = append(opts, descOpt)
+			}
+		default:
+			if descOpt != nil {
+				opts = append(opts, descOpt)
+			}
+			opts = append(opts, refOpt)
+		}
+		m, err = manifest.New(opts...)
+	case "regputget":
+		// one client with the response cache on: push the manifest to the reference (this registry, like many
+		// proxies, stores what it is sent without comparing it with a digest in the URL), then pull that reference
+		fr := &fakeReg{hdrMT: kindMT(sc.Kind), store: true}
+		rc := regclient.New(regclient.WithConfigHost(config.Host{Name: "registry.example", Hostname: "registry.example", TLS: config.TLSDisabled}),
+			regclient.WithRegOpts(reg.WithHTTPClient(&http.Client{Transport: fr}), reg.WithDelay(time.Millisecond, 5*time.Millisecond), reg.WithRetryLimit(2),
+				reg.WithCache(time.Minute, 100)))
+		rs := "registry.example/repo:tag"
+		if refDig != "" {
+			rs = "registry.example/repo@" + refDig
+		}
+		r, rerr := ref.New(rs)
+		if rerr != nil {
+			fail(rerr)
+		}
+		mp, perr := manifest.New(manifest.WithRaw(body))
+		if perr != nil {
+			fail(perr)
+		}
+		if perr := rc.ManifestPut(ctx, r, mp); perr != nil {
+			err = perr // a client that refuses such a push returns nothing: fine
+		} else {
+			m, err = rc.ManifestGet(ctx, r)
+		}
 	case "reg":
 		fr := &fakeReg{body: body, hdrDig: hdrDig, hdrMT: hdrMT}
 		rc := regclient.New(regclient.WithConfigHost(config.Host{Name: "registry.example", Hostname: "registry.example", TLS: config.TLSDisabled}),
